@@ -197,6 +197,14 @@ class Interp:
         self.fresh.add(inst)
         kernel.label(world, f'w{h}#{inst[1]}')
         spec = self.cfg['worlds'][h]
+        if self.cfg.get('falsy_worlds'):
+            # worlds of a subclass that is falsy while it has no entities
+            # (a container-like __len__): a world is a world all the same
+            if getattr(self, 'FalsyWorld', None) is None:
+                self.FalsyWorld = type('FalsyWorld', (d.World,), {
+                    '__len__': lambda w: 0})
+            world.__class__ = self.FalsyWorld
+            self.probes['falsy_world'] += 1
 
         class Tick(d.Processor):
             def process(self, dt):
@@ -1027,6 +1035,7 @@ def gen_config(prop, rng):
             rng.randint(1, 6))]
     return {'policy': rng.choice(kernel.POLICIES), 'worlds': worlds,
             'own_loop': rng.random() < .2,
+            'falsy_worlds': rng.random() < .1,
             'shared_switch': ([rng.randrange(nw), rng.random() < .5,
                                rng.random() < .7]
                               if rng.random() < .1 else None),
